@@ -106,3 +106,13 @@ CLAIMS['C11'] = dict(
          'value::write imbues the C locale before write_value and restores the stream locale on the normal and the exceptional path, write_value is reachable only through write (every save/operator<<), '
          'the tokenizer brackets the input stream with the classic locale; all integer/float traits<T>::get return only past the round-trip / range comparison.',
     note='Not decided: language equivalence with RFC 8259 (e.g. trailing commas), number round-trip precision, the escape tables of generic_append (abstract-interpretation rule, separate).')
+
+CLAIMS['C12'] = dict(
+    category='other',
+    technique='static analysis: gate-edge domination, exhaustive-switch check against the enum, per-case path rules, provenance of call arguments',
+    text='Byte-exact reconstruction under all cut points is a runtime quantity and is not claimed. Decided clauses: in on_content_start every allocation sized by the declared length (post_data.resize, the multipart parser) lies past a limit '
+         'comparison and the sign test; on_content_progress handles every parsing_result_type enumerator explicitly (no_room_left -> 413, parsing_error/default -> 400, eof with leftover or length mismatch -> 400, declared length reached without eof -> 400), '
+         'marks the request ready only when read_size == content_length, and contains exceptions; size_ok runs on both the content_partial and the content_ready edge before the filter is told, its false edge returns 413; '
+         'http::file::~file closes and close() removes an unsaved temporary file on every path of the temporary branch; in the boundary matcher a failed partial match is re-emitted from the boundary text (never from the input buffer) '
+         'with the matched length read before it is reset, a byte is written only when it was not counted into the match, and failed writes are reported.',
+    note='Not decided: reconstruction exactness of the matcher for all content/boundary/cut combinations, Content-Disposition parsing, file_buffer spill-over.')
